@@ -36,7 +36,8 @@ Definition enc_addr (a : addr) : list bool :=
 Definition addr_ok (a : addr) : bool :=
   match a with
   | AddrNone => true
-  | AddrExt v len => (1 <=? len) && (len <? 512) && in_uint len v
+  (* len = 0 is a valid addr_extern: no address bits, the value is 0 (in_uint 0 v <-> v = 0) *)
+  | AddrExt v len => (0 <=? len) && (len <? 512) && in_uint len v
   | AddrStd ac wc h =>
       in_int 8 wc && (length h =? 32)%nat && bytes_okb h &&
       match ac with None => true | Some (d, p) => (1 <=? d) && (d <=? 30) && in_uint d p end
